@@ -99,6 +99,7 @@ def check_C02(tr):
         return out
     init = tr["init"]; method = init["irr"]["irrigation_method"]; eff = float(init["irr"]["AppEff"])
     W = init["weather"]
+    prev_bunds = None
     for d, f, g, s in day_rows(tr):
         t = d["tsc"]; gs = bool(s[1])
         P = float(W[t, 2])
@@ -114,6 +115,12 @@ def check_C02(tr):
         if infl < -TOL:
             if bunds_on or d["surf_pre"] <= 0 or infl < -d["surf_pre"] - TOL:
                 out.append(V("C02:infl_negative", "Infl=%.9g negative (ponded %.9g, bunds %s) on step %d" % (infl, d["surf_pre"], bunds_on, t), step=t))
+            elif prev_bunds is False:
+                # negative only on the day bunds are REMOVED: the management in force on the previous simulated day had no bunds either,
+                # so there were no bunds to remove and no ponded water of theirs to release
+                out.append(V("C02:infl_negative_no_bunds_removed", "Infl=%.9g negative on step %d although no bunds were in force on the previous simulated day "
+                             "(ponded %.9g at the start of the day on a field without bunds)" % (infl, t, d["surf_pre"]), step=t))
+        prev_bunds = bunds_on
         if P == 0 and app == 0 and d["surf_pre"] == 0 and (abs(infl) > 0 or abs(ro) > 0):
             out.append(V("C02:dry_day", "dry day with nothing ponded has Infl=%.9g Runoff=%.9g on step %d" % (infl, ro, t), step=t))
         if len(out) > 3: break
